@@ -44,10 +44,9 @@ def cas_overhead(n):
     return 128 + 128 + 21 + 128 + 128 + 6 + (0 if n == 0 else n + 6 * ((n + 254) // 255))
 
 
-def exact_size_lengths():
-    """three file lengths whose cassette image is exactly 161,280 bytes"""
+def exact_size_lengths(a=65535):
+    """three file lengths (the first one given) whose cassette image is exactly 161,280 bytes"""
     target = dskfs.IMAGE_SIZE
-    a = 65535
     for b in range(65535, 20000, -1):
         rest = target - cas_overhead(a) - cas_overhead(b)
         # solve cas_overhead(c) == rest
@@ -101,8 +100,15 @@ def cases(tier, seed):
     for tup in itertools.product([0, 4, 1, "R"], repeat=3):
         if tup[0] != "R":
             yield {"kind": "cas", "obj": list(tup)}
+    # the same for other first lengths: where the tape's block framing falls relative to the offsets a disk reader looks at differs
+    for a in (65500, 65300, 64000):
+        ex2 = exact_size_lengths(a)
+        if ex2:
+            for pat in ("55", "dos"):
+                yield {"kind": "cas", "hist": ["x0", "x1", "x2", SAVE, 0, SAVE], "exact": ex2, "pat": pat}
     ex = exact_size_lengths()
     if ex:
+        # (what lies where a disk image has its directory decides what a disk reader makes of it: zeroes, $FF, plausible entries, text)
         for pat in ("00", "ff", "dir"):
             yield {"kind": "cas", "hist": ["x0", "x1", "x2", SAVE, 0, SAVE], "exact": ex, "pat": pat}
 
